@@ -112,6 +112,10 @@ theorem C06_resolve_total (tt : TypeTable) (root : Option Val) (path : String) (
 theorem C06_stalled_peer_holds_no_lock :
     Skeleton.current.clInvokeOutsideLock = true ∧ Skeleton.current.clLockIsMutex = true := by decide
 
+/-- The resolver's fallback `MethodByName` runs on the closure manager: its exported method set is exactly {CallClosure} (checked against the regenerated skeleton), so no peer-chosen name reaches any other library function. -/
+theorem C06_closure_manager_exposes_only_its_entry_point :
+    Skeleton.current.lkClosureManagerMethods = ["CallClosure"] := by decide
+
 end Panrpc.Lk
 
 #print axioms Panrpc.Lk.C06_crash_on_pinned_nil_iface
@@ -122,3 +126,4 @@ end Panrpc.Lk
 #print axioms Panrpc.Lk.C06_resolve_total_of
 #print axioms Panrpc.Lk.C06_resolve_total
 #print axioms Panrpc.Lk.C06_stalled_peer_holds_no_lock
+#print axioms Panrpc.Lk.C06_closure_manager_exposes_only_its_entry_point
